@@ -14,9 +14,9 @@ claimed = {
          "Acceptance of a conservative Policy grammar and rejection of twelve malformed classes are decided for inputs of every length on the extracted automaton; token hygiene (no blank inside a token, no empty token), the operator set, error propagation and totality are decided; exactness of the produced AST is not."),
  "C05": ("other", "field read/write sets over the SSA call trees, conversion scan, events of the parser transition system, " + AI + " of parse/render/parse on architecture names and on a generated family of fields", "3.C05",
          "Renderer field coverage, byte fidelity, and absence of stored-but-unrendered entries are universal; the architecture and field fixpoints are decided on exhaustive component combinations / a generated family."),
- "C06": ("proof", AI + " on a universe exhaustive by data independence: complete decision tables with callee oracles; loop-shape check for induction over list length", "3.C06",
+ "C06": ("proof", AI + " on a universe exhaustive by data independence: complete decision tables with callee oracles; loop-shape check for induction over list length; wildcard names parsed by ParseArch and asked against concrete names of four ABIs; SatisfiedBy also end to end on numbers that are no versions", "3.C06",
          "Complete decision tables of Is/IsWildcard/Matches/GetPossibilities/GetAllPossibilities/GetSubstvars/SatisfiedBy against the property's specification, exhaustive up to renaming."),
- "C11": ("other", AI + " of NewParagraphReader / NewDecoder / Signer over scenarios (plain/signed x four keyrings x every outcome of clearsign.Decode, io.ReadAll and CheckDetachedSignature), readers and byte slices carrying provenance, reader objects keeping their identity (a reader the verification has drained must not be the one left for parsing)", "3.C11",
+ "C11": ("other", AI + " of NewParagraphReader / NewDecoder / Signer over scenarios (plain/signed x four keyrings x every outcome of clearsign.Decode, io.ReadAll and CheckDetachedSignature), readers and byte slices carrying provenance, reader objects keeping their identity (a reader the verification has drained must not be the one left for parsing); two clearsigned messages back to back; armor that does not start the input, read with a keyring", "3.C11",
          "Exactly the wrapper obligations that turn openpgp.CheckDetachedSignature's guarantee into the property are decided on every scenario path; the OpenPGP library is trusted."),
  "C12": ("other", AI + " of GetHash / FileHash.Verifier and the verifier it returns / NewHasher and the hasher it returns / the hashing constructors / FileHashFromHasher through the public API, with hash objects as recording oracles and interpreted package initialisers; Read / Write of a hashing stream that is not io.TeeReader / io.MultiWriter interpreted against a scripted stream; field/algorithm table with the algorithm read off an interpreted line parse", "3.C12",
          "Algorithm tables (incl. freshness of hash objects), verifier algorithm choice for every name x hash length, fan-out wiring, byte counting and the Close verdict are decided; the digests themselves are the standard library's."),
@@ -24,14 +24,14 @@ claimed = {
          "Column provenance of every entry field, name trimming, member reader placement, offset arithmetic, freshness, global and header magic, short reads are decided for every header; byte equality of the delivered data rests on io.SectionReader."),
  "C14": ("other", AI + " of the .deb loader on scripted archives: the ar iterator, bufio, the six decompressor constructors, archive/tar, control.Unmarshal and Close are provenance-recording oracles; every iteration order of the member map is explored; decompressor table read from the interpreted package initialiser", "3.C14",
          "Format checks, codec wiring for all 36 encoding combinations, extension slicing, control lookup, untouched data stream, determinism and index completeness are decided on the scenario family; tar/decompressor behaviour is trusted."),
- "C15": ("other", AI + " of Ar.Next on a symbolic header (progress >= 60 bytes per member with size >= 0 on the path, header magic, short reads), of LoadAr/Next on 90 concrete archives, with a concrete size column against a ReaderAt that ends inside or right after the data (truncated members refused), and of the loader on scripted archives over every map iteration order (loop exit, determinism); fatal-call reachability; constant-index bounds", "3.C15",
+ "C15": ("other", AI + " of Ar.Next on a symbolic header (progress >= 60 bytes per member with size >= 0 on the path, header magic, short reads), of LoadAr/Next on 90 concrete archives, with a concrete size column against a ReaderAt that ends inside or right after the data (truncated members refused), and of the loader on scripted archives over every map iteration order (loop exit, determinism, error texts included); reachability of fatal exits and unconditional panics (a panic statement behind a guard is decided by the interpreted families, not by reachability); constant-index bounds", "3.C15",
          "Termination bound and consistency clauses are decided for every header and every scripted archive; a member whose recorded size runs past the end of the input is refused (probe-read scenarios); a ReaderAt that changes between Next and the read is not covered."),
- "C16": ("other", AI + " of CheckDebsig on scripted member maps (roles, decoys, both library verdicts) over every map iteration order, with Seek, io.MultiReader and CheckDetachedSignature as recording oracles; the loader interpreted on the same scenarios", "3.C16",
+ "C16": ("other", AI + " of CheckDebsig on scripted member maps (roles, decoys, both library verdicts) over every map iteration order, with Seek, io.NewSectionReader, io.MultiReader and CheckDetachedSignature as recording oracles (the signed stream is made of readers of the verifier's own over whole members; the shared member readers are never moved); the loader interpreted on the same scenarios", "3.C16",
          "The wrapper obligations that turn the OpenPGP library's guarantee into the property are decided on the scenario family; the library is trusted."),
  "C19": ("other", AI + " of OrderDSCForBuild on exact source descriptions, once with a recording oracle for the topological sorter (every AddEdge/Sort outcome enumerated) and once end to end with the sorter interpreted (returned order checked against the dependency edges; cycle; sources built directly and decoded from .dsc documents); struct-tag, map-order and package-state rules", "3.C19",
          "Edges per build-dependency field (with C06 selection semantics interpreted, not mocked), edge direction, node-before-edge order, error propagation and result construction are decided; the sorter itself is trusted."),
- "C20": ("other", AI + " of the six upload methods and internal.Copy with every filesystem call replaced by an effect-recording oracle forking into success and failure", "3.C20",
-         "Order of effects (control file last), failure propagation, destination paths, handle update, containment of listed names and cleanup after a failed copy are decided on every path of the oracle tree; real filesystem behaviour is not."),
+ "C20": ("other", AI + " of the six upload methods and internal.Copy with every filesystem call replaced by an effect-recording oracle forking into success and failure; the constructors interpreted for the path they record", "3.C20",
+         "Order of effects (control file last), failure propagation, destination paths, handle update, the handle recording the path the caller gave (no symbolic link resolution), containment of listed names and cleanup after a failed copy are decided on every path of the oracle tree; real filesystem behaviour is not."),
  "C07": ("other", AI + " of ParagraphReader.Next / All with the buffered reader replaced by a scripted oracle over 18 line kinds (all scripts up to length 3, with and without final newline), compared with a deb822 reference model; who-reads rule", "3.C07",
          "The reader's line classification, folding, duplicate handling, EOF handling and the Order/Values invariant are decided for every combination of reader state class and line kind; documents outside the line kinds are not."),
  "C08": ("other", AI + " of Paragraph.WriteTo and of the reader on the text written (line-sequence value table) and on documents read, written and read again, receiver/typestate rules on the encoder, map-order rule", "3.C08",
@@ -40,8 +40,8 @@ claimed = {
          "Decode table, decode/marshal/decode identity and text fixpoint, required/omitted handling, merge with the embedded Paragraph and absence of panics are decided on probes covering every supported kind and tag combination; probe values outside the tables are not."),
  "C17": ("other", AI + " of changelog.Parse / ParseOne with a scripted reader (all scripts up to 3 lines over 14 kinds, plus every single-line edit, truncation and missing final newline of well-formed changelogs), compared with a deb-changelog reference model; 31 lines with punctuation out of place must return", "3.C17",
          "Every entry field and the all-or-error verdict are decided on the script family; time.Parse is trusted."),
- "C18": ("other", "global-write scan plus stores into init-time objects recorded by the interpreter, map-order rule, loop classification (counted / range / reader / descent loops; cursor loops backed by the C01 and C04 explorations), index and slice range rules over canonical terms (bounds and their order) with scenario-coverage fallback, fatal-call and type-assertion reachability, value-xor-error dataflow (path by path where the join hides it)", "3.C18",
-         "Shared-state freedom, order independence of map walks, termination of every loop, in-range indexing, absence of explicit panics and the value-xor-error convention are decided for the repository's own code; the standard library and data races inside it are not."),
+ "C18": ("other", "global-write scan plus stores into init-time objects recorded by the interpreter, map-order rule, loop classification (counted / range / reader / descent loops; cursor loops backed by the C01 and C04 explorations), index and slice range rules over canonical terms (bounds and their order) with scenario-coverage fallback, reachability of fatal exits, unconditional panics and single-result type assertions (guarded panic statements: by the explorations and hostile documents only), value-xor-error dataflow (path by path where the join hides it)", "3.C18",
+         "Shared-state freedom, order independence of map walks, termination of every loop, in-range indexing, absence of fatal exits and of panic states in the explorations, and the value-xor-error convention are decided for the repository's own code; the standard library and data races inside it are not."),
  "C10": ("other", AI + " of Decoder.Decode (reflect model, reader oracle) on a document rendered from a model of every field of each document kind, compared field by field, and of a list of paragraphs element by element; type-level struct-tag tables against Debian field tables; interpreted tables of the line parsers, accessors and ParseControl", "3.C10",
          "For each of the eight document types (and a probe embedding BestChecksums) the decoded value equals the model for a generated document covering every field kind; 116 tag instances and the accessor tables are decided exactly; other document models are not."),
 }
